@@ -1,10 +1,20 @@
-(* C11 - whatever the compiler accepts loads and defines exactly the program's predicates. *)
-From Coq Require Import List Arith.
-Import ListNotations.
-From YP Require Import Base.Str Lang.Ast Comp.IR Comp.CompileBody Comp.CompileClause Comp.CompileTotal.
+(* C11 - whatever the compiler accepts loads and defines exactly the program's predicates.
 
-(* the compiler (model) produces code for every program: compile_body never gets stuck,
-   whatever the nesting of the body and whatever the label counter *)
+   compile_text printable source (Comp/CompileText.v) is the model of compile_prolog_from_string:
+   front end (Lang/Front.v) + compile_program + the static size limits of CPython (Comp/Limits.v) + emit_program with
+   repr = py_repr printable.  `printable` (the Unicode database behind repr) is universally quantified.
+   Only statements here; every proof is `exact <lemma>`. *)
+From Coq Require Import String.
+From Coq Require Import List Arith NArith Bool.
+Import ListNotations.
+From YP Require Import Base.Str Lang.Ast Lang.Unquote Lang.Front Comp.IR Comp.CompileBody Comp.CompileClause Comp.CompileTotal Comp.Emit
+  Comp.PyRepr Comp.Limits Comp.CompileText Comp.EmitShape Comp.EmitNames Comp.EmitPieces Comp.EmitLines Comp.CompileTextSound Comp.FrontLex.
+From YP Require Engine.Resolve.
+Local Open Scope string_scope.
+Local Open Scope list_scope.
+
+(* compile_body never gets stuck, whatever the nesting of the body and the label counter; the compiler produces code
+   for every program: the only rejections are those of compile_text_cases below *)
 Theorem C11_compile_body_total : forall b cnt, exists code cnt', comp (fuel_body b) b cnt = Some (code, cnt').
 Proof. exact comp_total_exists. Qed.
 Print Assumptions C11_compile_body_total.
@@ -12,3 +22,117 @@ Print Assumptions C11_compile_body_total.
 Theorem C11_compile_program_total : forall p, compile_program p <> None.
 Proof. exact compile_program_total. Qed.
 Print Assumptions C11_compile_program_total.
+
+(* the four ways compile_prolog_from_string can end, each with its exact cause *)
+Theorem C11_compile_text_cases : forall printable s,
+  match compile_text printable s with
+  | CRejectFront => front s = None
+  | CRejectNumeral => exists p ir, front s = Some p /\ compile_program p = Some ir /\ ir_nums_ok ir = false
+  | CTooLarge => exists p ir, front s = Some p /\ compile_program p = Some ir /\ ir_nums_ok ir = true /\ py_limits ir = false
+  | CText text => exists p ir, front s = Some p /\ compile_program p = Some ir /\ ir_nums_ok ir = true /\ py_limits ir = true /\
+                    text = emit_program (py_repr printable) ir
+  end.
+Proof. exact compile_text_cases. Qed.
+Print Assumptions C11_compile_text_cases.
+
+(* emit_defs_exact: the accepted text is emit_lines joined by line feeds; its top-level lines (not empty, not indented, not a
+   comment) are exactly one `def <name>_<arity>(arg1,...,argN):` per head key of the program in order of first occurrence;
+   different keys give different def names; the keys are exactly the (name, arity) of the clauses; every def name is an
+   identifier.  (head_keys, def_line, def_name, is_top: Comp/EmitShape.v, Comp/EmitLines.v) *)
+Theorem C11_emit_defs_exact : forall printable s text, compile_text printable s = CText text ->
+  exists p ir, front s = Some p /\ compile_program p = Some ir /\
+    text = join [10%N] (emit_lines (py_repr printable) ir) /\
+    filter is_top (emit_lines (py_repr printable) ir) = map def_line (head_keys p) /\
+    NoDup (map def_name (head_keys p)) /\
+    (forall k, In k (head_keys p) <-> In k (map clause_key p)) /\
+    Forall (fun k => valid_pred_name (def_name k) = true) (head_keys p).
+Proof. exact emit_defs_exact. Qed.
+Print Assumptions C11_emit_defs_exact.
+
+Theorem C11_head_keys_spec : forall p, NoDup (head_keys p) /\ (forall k, In k (head_keys p) <-> In k (map clause_key p)).
+Proof. exact head_keys_spec. Qed.
+Print Assumptions C11_head_keys_spec.
+
+(* the def name is the engine's context key '<name>_<arity>': it determines name and arity and is never an API name *)
+Theorem C11_def_name_determines_key : forall k1 k2, def_name k1 = def_name k2 -> k1 = k2.
+Proof. exact def_name_inj. Qed.
+Print Assumptions C11_def_name_determines_key.
+
+(* every function: def line, `doBreak = False`, the wrapper loop, a NON-EMPTY body indented at least two levels, and the
+   trailing `if False:` / `yield False` that makes it a generator function whatever the body is *)
+Theorem C11_function_frame : forall repr f, exists body,
+  emit_function repr f =
+    def_line (fn_key f) :: ind 1 (s_ "doBreak = False") :: ind 1 (s_ "for _ in [1]:") :: body
+    ++ [ind 1 (s_ "if False:"); ind 3 (s_ "yield False")] /\
+  body <> [] /\ Forall (at_least 2) body.
+Proof. exact function_frame. Qed.
+Print Assumptions C11_function_frame.
+
+Theorem C11_toplevel_defs : forall repr ir, filter is_top (emit_lines repr ir) = map (fun f => def_line (fn_key f)) ir.
+Proof. exact toplevel_defs. Qed.
+Print Assumptions C11_toplevel_defs.
+
+(* the lines of the text are these lines (no line contains a line break), for lexically well-formed programs: variable names
+   over [A-Za-z0-9_], numerals over [0-9], head names identifiers (lexical_ok, Comp/EmitLines.v) *)
+Theorem C11_text_lines : forall printable s text, compile_text printable s = CText text ->
+  exists p ir, front s = Some p /\ compile_program p = Some ir /\
+    (lexical_ok p = true -> split_nl text = emit_lines (py_repr printable) ir).
+Proof. exact text_lines. Qed.
+Print Assumptions C11_text_lines.
+
+(* every program the front end returns is lexically well-formed (lexer rule languages + parse_yield + the visitor copies token
+   texts; anonymous variables are x<n>), so the hypothesis lexical_ok holds for every accepted source text ... *)
+Theorem C11_front_lexical : forall s p, front s = Some p -> lexical_ok p = true.
+Proof. exact front_lexical. Qed.
+Print Assumptions C11_front_lexical.
+
+(* ... and the lines of an accepted text are, unconditionally, the lines of emit_lines *)
+Theorem C11_text_lines_exact : forall printable s text, compile_text printable s = CText text ->
+  exists p ir, front s = Some p /\ compile_program p = Some ir /\ split_nl text = emit_lines (py_repr printable) ir.
+Proof. exact text_lines_exact. Qed.
+Print Assumptions C11_text_lines_exact.
+
+(* emit_lexemes_valid: integer literals are canonical decimals; a Prolog variable becomes an ASCII identifier with the reserved
+   prefix V_, which is none of Python's keywords / constants / __debug__, no engine API name, and none of the names the
+   generated code uses itself (arg<n>, l<n>, cutIf<n>, doBreak, _); def names are identifiers and never API names *)
+Theorem C11_emit_lexemes_valid : forall p, lexical_ok p = true ->
+  (forall d, In (KNum, d) (program_strs p) -> canonical_dec (strip_zeros d) = true) /\
+  (forall v, In (KVar, v) (program_strs p) ->
+     valid_pred_name (pyvar v) = true /\ local_form (pyvar v) = true /\ ~ In (pyvar v) reserved_names /\
+     (forall i, pyvar v <> argvar i) /\ (forall n, pyvar v <> loopvar n) /\ (forall l, pyvar v <> label_name l) /\
+     pyvar v <> DOBREAK /\ pyvar v <> UNDERSCORE) /\
+  (forall k, In k (head_keys p) -> valid_pred_name (def_name k) = true /\ ~ In (def_name k) Resolve.api_names).
+Proof. exact lexemes_valid. Qed.
+Print Assumptions C11_emit_lexemes_valid.
+
+(* whatever the variable is called: the prefixed name has the form of a local and is not reserved (no hypothesis) *)
+Theorem C11_prefixed_variable_not_reserved : forall v, local_form (pyvar v) = true /\ ~ In (pyvar v) reserved_names.
+Proof. exact (fun v => conj (local_pyvar v) (local_not_reserved _ (local_pyvar v))). Qed.
+Print Assumptions C11_prefixed_variable_not_reserved.
+
+(* too_large_reported: code beyond CPython's static limits is reported, never returned; accepted code is within them *)
+Theorem C11_too_large_reported : forall printable s p ir, front s = Some p -> compile_program p = Some ir ->
+  (py_limits ir = false \/ ir_nums_ok ir = false) -> forall text, compile_text printable s <> CText text.
+Proof. exact too_large_reported. Qed.
+Print Assumptions C11_too_large_reported.
+
+Theorem C11_accepted_within_limits : forall printable s text, compile_text printable s = CText text ->
+  exists p ir, front s = Some p /\ compile_program p = Some ir /\
+    Forall (fun f => func_fdepth f <= CO_MAXBLOCKS /\ func_bdepth f <= MAXLEVEL) ir.
+Proof. exact accepted_within_limits. Qed.
+Print Assumptions C11_accepted_within_limits.
+
+(* non-vacuity: a two-predicate source with a leading-zero numeral, a variable named like a Python constant and a body that
+   can never succeed is accepted, its text has exactly two top-level lines; 20 goals are reported as too large *)
+Example C11_nonvacuous :
+  let src := d "foo(007, True) :- bar(True).\10;p :- fail.\10;foo(x, _)." in
+  (exists text, compile_text (fun _ => false) src = CText text /\
+     filter is_top (split_nl text) = [d "def foo_2(arg1,arg2):"; d "def p_0():"]) /\
+  compile_text (fun _ => false) (d "p :- q,q,q,q,q,q,q,q,q,q,q,q,q,q,q,q,q,q,q,q.") = CTooLarge /\
+  compile_text (fun _ => false) (d "'hello world'(a).") = CRejectFront.
+Proof.
+  cbv zeta. split; [|split].
+  - eexists. split; [vm_compute; reflexivity | vm_compute; reflexivity].
+  - vm_compute. reflexivity.
+  - vm_compute. reflexivity.
+Qed.
